@@ -23,12 +23,22 @@ def run_api(ctx, exe, jobs, tag, nproc=8, timeout=3600):
         todo = [json.loads(l) for l in open(inp)]
         got = {}
         for rnd in range(6):
-            p = vh(exe, ["api", inp, outp], timeout=timeout, ok_codes=(0, 3))
+            p = vh(exe, ["api", inp, outp], timeout=timeout, check=False)
+            if p.returncode in (1, 2, 4, 101):
+                raise ToolError("vh api %s failed (%d):\n%s" % (inp, p.returncode, p.stdout[-3000:]))
             with open(outp) as f:
                 for line in f:
-                    r = json.loads(line)
+                    try:
+                        r = json.loads(line)
+                    except ValueError:
+                        continue        # a line cut off by the process being killed
                     got[r["id"]] = r["res"]
             todo = [j for j in todo if j["id"] not in got]
+            if p.returncode not in (0, 3) and todo:
+                # the process was terminated by a signal while running the first job that has no result (typically SIGABRT: a panic
+                # while panicking).  That job's outcome is "the process aborted"; the ones after it are run again
+                j = todo.pop(0)
+                got[j["id"]] = [{"panic": "ABORT: the process was terminated (exit status %d) while running this job: %s" % (p.returncode, p.stdout[-300:].replace("\n", " ")), "abort": True}] + [{"skip": "not executed"}] * (len(j["calls"]) - 1)
             if p.returncode == 0 or not todo:
                 break
             with open(inp, "w") as f:
